@@ -69,24 +69,14 @@ def _role_view(prog, key, tup):
     return (tup[0],) + tuple(go(x) for x in tup[1:])
 
 
-def check(ctx):
-    # every helper is analysed in the all-inlined view: what it does, not how the work is split into functions
-    prog = ctx.prog.view("all")
-    # R-1 sibling agreement
-    for fam, (creates, verifies) in sorted(FAMILIES.items()):
-        views = {}
-        for k in creates + verifies:
-            a = S.abstract_structure(prog, k)
-            views[k] = _role_view(prog, k, a[0]) if a else None
-        vals = list(views.values())
-        same = all(v is not None for v in vals) and all(v == vals[0] for v in vals)
-        ctx.ob("R-1", "siblings:%s" % fam, same,
-               "%s: all %d create/verify helpers build their structure from the same abstract arguments" % (fam, len(vals)),
-               detail={k: show(v)[:300] if v else None for k, v in views.items()},
-               sample={"family": fam, "structure": show(vals[0])[:300] if vals[0] else None})
-    # R-2 .. R-4 per helper
+def check_helpers(ctx, builders_only=False):
+    """R-1 .. R-4 per create / verify helper.  builders_only: the creating methods of the builders, judged as builder calls
+    (C19: the caller's function is called once, its result stored in the documented field and nothing else touched, the builder
+    returned, the detached variants refusing when a payload is embedded)"""
     for key, h in sorted(HELPERS.items()):
-        r = S.check_helper(ctx, "R-1", key, h)
+        if builders_only and "Builder::" not in key:
+            continue
+        r = S.check_helper(ctx, "R-1", key, h, guards_only=builders_only)
         if r is None:
             continue
         f, pv, bb, args, struct_t = r
@@ -136,6 +126,24 @@ def check(ctx):
             ok = len(props) == 1 and props[0]["inner"] == call_t and not [o for o in outs if o["kind"] == "err"]
             ctx.ob("R-4", "error-propagated:%s" % key, ok, "%s returns the creator function's error and no message" % key, where=f.where(bb),
                    detail={"outcomes": [(o["kind"], show(o["term"])[:80]) for o in outs]})
+
+
+def check(ctx):
+    # every helper is analysed in the all-inlined view: what it does, not how the work is split into functions
+    prog = ctx.prog.view("all")
+    # R-1 sibling agreement
+    for fam, (creates, verifies) in sorted(FAMILIES.items()):
+        views = {}
+        for k in creates + verifies:
+            a = S.abstract_structure(prog, k)
+            views[k] = _role_view(prog, k, a[0]) if a else None
+        vals = list(views.values())
+        same = all(v is not None for v in vals) and all(v == vals[0] for v in vals)
+        ctx.ob("R-1", "siblings:%s" % fam, same,
+               "%s: all %d create/verify helpers build their structure from the same abstract arguments" % (fam, len(vals)),
+               detail={k: show(v)[:300] if v else None for k, v in views.items()},
+               sample={"family": fam, "structure": show(vals[0])[:300] if vals[0] else None})
+    check_helpers(ctx)
     # verify side's stored field == create side's stores
     for fam, (creates, verifies) in sorted(FAMILIES.items()):
         st = {HELPERS[k]["stores"].split(".")[-1] for k in creates}
